@@ -69,7 +69,7 @@ def gen_cases(tier, seed):
         for name, reps in replies_for(inv):
             if name not in ('positive', 'neg22', 'trunc1', 'flip-echo', 'other-service', 'silence'):
                 continue
-            for blk in ('override', 'suppress'):
+            for blk in ('override', 'suppress', 'suppress (not waiting for a negative response)', 'bare suppress'):
                 for sw in itertools.product((1, 0), repeat=3):
                     cfgv = list(cl.DEFAULT_CFG)
                     for s, v in inv.cfg.items():
@@ -79,7 +79,8 @@ def gen_cases(tier, seed):
                     if blk == 'override':
                         h.ov_fun(b'', b'')
                     else:
-                        h.spr_enter(True)
+                        # (a service without a subfunction byte cannot carry the suppression bit: its reply is processed as usual)
+                        h.spr_enter(True if blk == 'suppress' else (False if blk.startswith('suppress (') else None))
                     h.call(inv.callid, inv.args, inv.blobs, reps)
                     if blk == 'override':
                         h.ov_exit()
